@@ -92,7 +92,10 @@ class LtlAstParserVisitor(LtlParserVisitor):
                         if (not isinstance(value, (int, float))):
                             raise RTAMTException(
                                 'The field {0} of the variable {1} is not of type int or float'.format(id, id_head))
-                    except AttributeError as err:
+                    except RTAMTException:
+                        raise
+                    except Exception as err:
+                        # the field does not exist, or reading it from a default-constructed object fails
                         raise RTAMTException(err)
             except KeyError:
                 if id_tail:
@@ -390,7 +393,9 @@ class LtlAstParserVisitor(LtlParserVisitor):
                     if (not isinstance(value, (int, float))):
                         raise RTAMTException(
                             'The field {0} of the variable {1} is not of type int or float'.format(id, id_head))
-                except AttributeError as err:
+                except RTAMTException:
+                    raise
+                except Exception as err:
                     raise RTAMTException(err)
         except KeyError:
             if id_tail:
